@@ -15,12 +15,13 @@
 (* (b) existential validation: some interleaving of the spec's internal       *)
 (*     actions explains every iteration; at idle points nothing internal may  *)
 (*     remain enabled (pending is started "as soon as" the task finishes).    *)
-EXTENDS PowerDistributor, SequencesExt
+EXTENDS PowerDistributor, SequencesExt, TLCExt
 
 VARIABLES tid, l, oi
 tvars == <<vars, tid, l, oi>>
 
-TraceLog == ndJsonDeserialize(IOEnv.TRACE_FILE)
+\* TLCEval: parse the file once, not at every use
+TraceLog == TLCEval(ndJsonDeserialize(IOEnv.TRACE_FILE))
 Tr == TraceLog[tid]
 Line == Tr.lines[l]
 NL == Len(Tr.lines)
